@@ -78,7 +78,7 @@ REGISTRY = {
  'C15': dict(level='other', P=[], R=['rtc.c14_selectors'],
              explanation='BOUNDED relational contracts on select: negation / positive rescaling of a quantitative feature, renaming of categories, row and column permutations leave the returned list '
                          'unchanged; a copy and a strictly monotone image of the target are returned. Known finding D6 (RegressionSelector default quantitative measure) reported as KNOWN-FINDING.'),
- 'C13': dict(level='proof', P=[GL_ALL], R=['rtc.c13_grouped_list'],
+ 'C13': dict(level='proof', P=[GL_ALL], R=['rtc.c13_grouped_list'], traces='rtc.c13_grouped_list',
              explanation='GroupedList: representation invariant WF established by the three constructors and preserved by every mutating method, exact effect of each '
                          'operation on the abstract view (ordered leader -> members), observers equal to their definition over the view: proved for all inputs by engine P '
                          '(induction over the operation history = invariant + per-method contracts). Cross-checked by engine R: the same operations executed on the real class '
